@@ -31,6 +31,18 @@ CHECKS = {
          "Relational monitor over two library runs per (input, W): the focused entries must be exactly the unfocused entries touching a workload that matches W (or the ingress controller), with identical connections; nothing matching => empty + warning + nil error. Held on the K (world, W) pairs in the evidence.",
          "The filter is recomputed from the unfocused run's peer accessors.",
          "runtime monitoring: relational filter oracle over paired list runs", "DESIGN.md §5 C16"),
+ 'C13': ('fault_enumeration',
+         "Fault enumeration over (junk kind, placement) cells applied to sampled valid worlds; relational monitors over paired real runs (with/without junk, stop-on-error on/off, list/diff) plus severe-entry counting. Every cell is run in every tier; held on the cells x worlds in the evidence.",
+         "Broken content is injected as whole files (a syntax error ends its own file); the resource-info route is judged only when the scan itself reported no error.",
+         "runtime monitoring: fault injection (documents/files) + relational oracle over paired runs", "DESIGN.md §5 C13"),
+ 'C17': ('exploration',
+         "Relational monitor over re-expressed inputs (nine workload expressions x replica counts) plus counting invariants on the returned peers; committed witnesses of the two known name-collision findings are replayed first. Held on the K worlds x 3 re-expressions in the evidence.",
+         "Workload identity is (namespace, name, kind); labels/ports copied verbatim into every expression.",
+         "runtime monitoring: metamorphic relational oracle + peer-count invariant", "DESIGN.md §5 C17"),
+ 'C18': ('exploration',
+         "Byte comparison between child-process runs of the freshly built binary and in-process library calls with the same options over a random flag matrix (list and diff), -f file vs stdout, exit status vs returned error, and ConnlistFromResourceInfos vs ConnlistFromDirPath connections. Held on the K invocations in the evidence.",
+         "Relies on run-to-run determinism (C08); logs go to stderr and are not compared.",
+         "runtime monitoring: differential oracle between binary and library executions", "DESIGN.md §5 C18"),
 }
 
 NOT_YET = "check not built yet (construction in progress, see DESIGN.md section 9)"
